@@ -450,7 +450,7 @@ CHECKS["C07"].update({
 })
 CHECKS["C08"]["note"] = ("Trusted: Lean kernel; generators; asyncio task scheduling is only exercised. Known finding E2 (a completion that raises AFTER sub-resolvers "
                          "of the same field were started abandons them). Parallel interleaving of callback bodies on worker threads is modelled for "
-                         "gather_futures' counter only (RuntimeRace.lean: LOAD / STORE / TEST micro-steps, finding E2r); other callback bodies are atomic in the model. Hang verdicts are progress-based and confirmed by a second isolated run.")
+                         "gather_futures' counter only (RuntimeRace.lean: LOAD / STORE / TEST micro-steps, finding E2r, repaired by fix 6013951); other callback bodies are atomic in the model. Hang verdicts are progress-based and confirmed by a second isolated run.")
 CHECKS["C09"]["note"] = "Trusted: Lean kernel; generators. Known finding E2 (see C08) also shows as a serial-order violation when a completion raises after its sub-resolvers started."
 CHECKS["C10"].update({
     "text": ("Lean theorems about the hand model of index_to_loc / to_dict of every error class / GraphQLResult.response / the staged process_graphql_query / the "
@@ -680,7 +680,7 @@ _add_rt("C08", "RuntimeRace.lean splits gather_futures.on_finish into the micro-
                "forced between LOAD_DEREF and STORE_DEREF). Every wait of the harness on the code under test is bounded: a deterministic deadlock detector in "
                "the single-threaded manual-executor worlds (a Future.result() on a pending future there can never return), SIGALRM watchdogs around "
                "process_graphql_query itself on real pools, a per-stage wall-clock backstop (never-completes:stage:<name>), blocked pool workers detached at exit.",
-        "Known finding E2r (the lost update, latent under the CPython 3.12 GIL; proposed_fixes/C08-gather-counter-lock.patch is offered). async_eq_blocking has "
+        "Repaired: E2r (the lost update, latent under the CPython 3.12 GIL; fix 6013951 takes the increment under a lock, which is the machine of gather_locked_sets_outer; the probe now checks that the forced preemption no longer loses an update). async_eq_blocking has "
         "no completeness hypothesis on the schedule (it speaks about whatever schedule produced a result). Abstract types, lazy iterables and completion-time "
         "ResolverErrors after sub-resolvers started (E2) are outside the Lean executor model (exercised, oracle only).")
 _add_rt("C09", "the `args` queue as an invariant over ALL steps of EVERY schedule (Lemmas/ExecSerialOrder.lean): serial_queue_invariant (top-level "
